@@ -1,6 +1,6 @@
 CONSTANTS
-  MaxPieces = 5
-  MaxLen = 3
+  MaxPieces = 4
+  MaxLen = 2
   Alphabet = {0, 1}
   MaxFrags = 3
 INIT Init
